@@ -184,6 +184,7 @@ class Ctx:
         self.notes = []
         self.symbols = {}       # name -> Sym created through the harness (for models / replay)
         self.feas_calls = 0
+        self.ghost = {}         # per-path ghost state of contract-level models (console, opened files, ...)
 
     def fresh(self, sort, hint="t"):
         self.counter += 1
